@@ -799,7 +799,30 @@ func brokenTagRun(t *rapid.T) {
 		js = append(js, 100)
 	}
 	j := js[uni(t, "shift", len(js))]
-	sout, serr := render(strings.Repeat("\n", j) + p.Main)
+	var sout string
+	var serr error
+	if uni(t, "reusetemplate", 4) == 0 {
+		// the shifted text goes into the SAME Template value whose parse just failed (Input is an exported field;
+		// NewTemplate returns the value together with the error): Parse must look at the text it has now
+		count("c15_shift_through_reused_template", 1)
+		func() {
+			defer func() {
+				if r := recover(); r != nil {
+					serr = &renderPanic{r}
+				}
+			}()
+			tm, _ := plush.NewTemplate(p.Main)
+			if tm == nil {
+				tm = &plush.Template{}
+			}
+			tm.Input = strings.Repeat("\n", j) + p.Main
+			if serr = tm.Parse(); serr == nil {
+				sout, serr = tm.Exec(plush.NewContextWith(newRuntime(p, true).contextData()))
+			}
+		}()
+	} else {
+		sout, serr = render(strings.Repeat("\n", j) + p.Main)
+	}
 	count("c15_shift_runs", 1)
 	want := shiftLines(err.Error(), j)
 	if serr == nil || sout != "" || serr.Error() != want {
